@@ -46,7 +46,9 @@ def flat(ps):
     return out
 
 def gen_case(rng, idx):
-    is_async = rng.random() < 0.35
+    # (return shape, sync / async and the presence of `ret` cycle with the case's index — period 48 — so that every combination is in
+    #  every corpus, whatever the seed)
+    is_async = (idx // 8) % 3 == 2
     ps = gen_params(rng, is_async)
     while idx == 3 and not ps: ps = gen_params(rng, is_async)      # case 3 is the standing witness of F27 (skip_all)
     fps = flat(ps)
@@ -87,7 +89,8 @@ def gen_case(rng, idx):
     # attribute — one span around the async fn's own body; the returned future is the caller's business and runs outside it
     retfut = is_async and not boxed and not generic and not any(('&' in (p.decl or '')) for p in ps) and rng.random() < 0.2
     # ---- return shape
-    shape = rng.choice(['unit', 'value', 'ok', 'err', 'question', 'panic', 'early', 'impl'] if not is_async else ['unit', 'value', 'ok', 'err', 'question', 'panic', 'early'])
+    shape = ['unit', 'value', 'ok', 'err', 'question', 'panic', 'early', 'impl'][idx % 8]
+    if is_async and shape == 'impl': shape = 'early'
     base = nums[0].name if nums else None
     val = (nums[0].num + 1) if nums else 41
     valexpr = ('%s + 1' % base) if base else '41u32'
@@ -95,7 +98,7 @@ def gen_case(rng, idx):
     tail = {'unit': '', 'value': valexpr, 'ok': 'Ok(%s)' % valexpr, 'err': 'Err(MyErr(%d))' % (val % 97), 'question': 'let v = helper(%s)?; Ok(v + 1)' % valexpr,
             'panic': 'panic!("boom %d")' % (val % 13), 'early': 'if %s > 0 { return 7; } %s' % (valexpr, valexpr), 'impl': valexpr}[shape]
     ret = err = None
-    if shape != 'panic' and rng.random() < 0.5 and not boxed and not retfut:
+    if shape != 'panic' and (idx // 24) % 2 == 0 and not boxed and not retfut:
         mode = rng.choice(['', 'Display', 'Debug']) if shape in ('value', 'ok', 'question', 'early', 'err') else rng.choice(['', 'Debug'])
         if shape == 'impl': mode = rng.choice(['', 'Debug'])
         if shape == 'unit': mode = rng.choice(['', 'Debug'])
